@@ -11,6 +11,23 @@ META = dict(
 
 
 def run(ctx):
+    import random
+    import consumer_common as cc
+    # consumer part: slow-reader corpus with interceptor chains, validated by spec/ConsumerObsTrace.tla
+    rnd = random.Random(ctx.seed)
+    plain, r1 = cc.gen_logs(ctx, "ConsumerLog.plain.cfg")
+    rnd.shuffle(plain)
+    quick = ctx.tier == "quick"
+    scs = cc.slow_reader_scenarios(plain, rnd, 6 if quick else 60, interceptors=2, family="slow-ic")
+    lay = cc.layout_scenarios(plain[:150 if quick else 2000], rnd, 1, "layout-ic", ["ru"])
+    for s_ in lay:
+        s_["cfg"]["interceptors"] = 1 + rnd.randrange(3)
+    cviols, cstats, ctrace, ccases = cc.run_scenarios(ctx, scs + lay, name="c18cons")
+    cmine = [v for v in cviols if v["clause"] in cc.CLAUSES["C18"]]
+    mr = ctx.need(ctx.tlc("Consumer", "Consumer.quick.cfg", timeout=900, name="consumer-mc"), "consumer pipeline model (InterceptOnce)")
+    pc.EXTRA = dict(viols=cmine, cov={"consumer_traces": cstats.get("traces", 0), "consumer_deliveries": cstats.get("delivered", 0),
+                                      "consumer_stalls": cstats.get("stalls", 0), "consumer_model_states": mr.distinct,
+                                      "consumer_model_transitions": mr.generated})
     fams = [pc.family_interceptors, lambda: pc.family_faults_ic(ctx.seed)]
     mc = ["MCProducer.small.cfg"]
     return pc.check(ctx, "C18", fams, mc)
